@@ -159,6 +159,21 @@ fn cases(max_n: usize) -> Vec<Case> {
             v.push(Case { bytes: p.clone(), sec, incl_opt: false, prep: 0, tag: format!("sec={} opt=none n={} ptr=1 header=1", sec_name(sec), n) });
         }
     }
+    // packets beyond 16 KiB: a record that starts below offset 0x4000 and ends above it, or starts exactly at
+    // 0x3fff / 0x4000, followed by records whose owners are compressed against its owner
+    for tstart in [16360usize, 0x3fff, 0x4000] {
+        let tgt = nm("target.example");
+        let mut m = base_msg(&nm("b.a"), T_A, true);
+        m.an.push(Rec { owner: nm("b.a"), rtype: 99, class: 1, ttl: 100, rdata: Rdata::Opaque(vec![0x42; tstart - 33]) });
+        m.an.push(Rec { ttl: 101, ..a_rec(&tgt, 101, [1, 1, 1, 1]) });
+        m.an.push(Rec { ttl: 102, ..a_rec(&tgt, 102, [2, 2, 2, 2]) });
+        m.an.push(Rec { ttl: 103, ..a_rec(&sub(&tgt), 103, [3, 3, 3, 3]) });
+        m.ar.push(Rec { ttl: 120, ..a_rec(&tgt, 120, [4, 4, 4, 4]) });
+        let bytes = encode(&m, Strategy::Max);
+        debug_assert_eq!(decode(&bytes).unwrap().spans[1].start, tstart);
+        v.push(Case { bytes: bytes.clone(), sec: Sec::Answer, incl_opt: false, prep: 0, tag: format!("sec=answer opt=none n=4 ptr=1 big16k={}", tstart) });
+        v.push(Case { bytes, sec: Sec::Additional, incl_opt: false, prep: 0, tag: format!("sec=additional opt=none n=1 ptr=1 big16k={}", tstart) });
+    }
     // the same walks on a packet whose question was deleted beforehand
     {
         let base = nm("b.a");
